@@ -95,6 +95,7 @@ const (
 	OpFPToFP
 	OpFIsNaN
 	OpFIsInf
+	OpFTrunc
 )
 
 var opNames = map[Op]string{
@@ -104,7 +105,7 @@ var opNames = map[Op]string{
 	OpShl: "bvshl", OpLShr: "bvlshr", OpAShr: "bvashr", OpBNot: "bvnot", OpNeg: "bvneg",
 	OpULt: "bvult", OpULe: "bvule", OpSLt: "bvslt", OpSLe: "bvsle",
 	OpFLt: "fp.lt", OpFLe: "fp.leq", OpFEq: "fp.eq", OpFAdd: "fp.add RNE", OpFSub: "fp.sub RNE",
-	OpFMul: "fp.mul RNE", OpFDiv: "fp.div RNE", OpFNeg: "fp.neg", OpFIsNaN: "fp.isNaN", OpFIsInf: "fp.isInfinite",
+	OpFMul: "fp.mul RNE", OpFDiv: "fp.div RNE", OpFNeg: "fp.neg", OpFIsNaN: "fp.isNaN", OpFIsInf: "fp.isInfinite", OpFTrunc: "fp.roundToIntegral RTZ",
 }
 
 type Term struct {
@@ -649,6 +650,13 @@ func tFIsInf(a *Term) *Term {
 	return &Term{Op: OpFIsInf, S: SBool, Args: []*Term{a}}
 }
 
+func tFTrunc(a *Term) *Term {
+	if a.Op == OpConst {
+		return mkFP(a.S, math.Trunc(a.fval()))
+	}
+	return &Term{Op: OpFTrunc, S: a.S, Args: []*Term{a}}
+}
+
 // int -> float
 func tIToFP(a *Term, signed bool, to Sort) *Term {
 	if a.Op == OpConst {
@@ -758,6 +766,8 @@ func evalTerm(t *Term, m Model, memo map[*Term]uint64) uint64 {
 		r = tFIsNaN(&Term{Op: OpConst, S: t.Args[0].S, Val: ev(0)}).Val
 	case OpFIsInf:
 		r = tFIsInf(&Term{Op: OpConst, S: t.Args[0].S, Val: ev(0)}).Val
+	case OpFTrunc:
+		r = tFTrunc(&Term{Op: OpConst, S: t.S, Val: ev(0)}).Val
 	case OpSIToFP:
 		r = tIToFP(mkBV(t.Args[0].S.W, ev(0)), true, t.S).Val
 	case OpUIToFP:
